@@ -6,8 +6,8 @@ metas = [json.load(open(p)) for p in sorted(glob.glob(os.path.join(HERE, "seeded
 missed = [m for m in metas if m["detection"].get("missed_by_first_version_of")]
 out = ["# Seeded property-breaking changes\n",
        "%d realistic changes to jonasphilipp/InfOCF, each written by a fresh sub-agent that was given only the text of one property and a" % len(metas),
-       "scratch worktree of /repo (nothing from /verif): round 1 = two per property (ids `Cxx-k`), rounds 2-4 = up to three more each for twenty",
-       "properties with emphasis on call sequences, faults and unusual input shapes (ids `r2-Cxx-k`, `r3-Cxx-k`, `r4-Cxx-k`; duplicates of earlier rounds were dropped).",
+       "scratch worktree of /repo (nothing from /verif): round 1 = two per property (ids `Cxx-k`), rounds 2-6 = up to three more each for the twenty",
+       "properties with emphasis on call sequences, faults and unusual input shapes (ids `r2-Cxx-k` .. `r6-Cxx-k`; duplicates of earlier rounds were dropped).",
        "Every change was confirmed here (`tools/seeded_confirm.sh`): the patch applies to /repo HEAD, the demonstration passes on the",
        "unchanged tree and fails on the changed one, and the repository's own test suite still reports 82 passed, 2 skipped with the",
        "change. None of them is committed to /repo. To run checks against one: `tools/seeded_eval.sh seeded/<id>/patch.diff C01 C12`",
